@@ -82,7 +82,7 @@ def handle (line : String) : String :=
       let ds := all[i]!
       let b := Spec.bases[i % Spec.bases.length]!
       Spec.DCtx.all.filterMap fun ctx =>
-        if ctx.abstract && !(ds.all Spec.Deriv.plain) then none
+        if ctx.abstract && (!(ds.all Spec.Deriv.plain) || !b.abstractOK) then none
         else
           let nm := if ctx.abstract then none else some "x"
           some (Spec.declCase b (Spec.ofDerivs nm ds) ctx)
@@ -99,7 +99,7 @@ def handle (line : String) : String :=
         let ctx := Spec.pick Spec.DCtx.all s1
         let b := Spec.pick Spec.bases (Spec.lcg s1)
         let s2 := Spec.lcg (Spec.lcg s1)
-        if ctx.abstract && !(ds.all Spec.Deriv.plain) then go3 n s2 acc
+        if ctx.abstract && (!(ds.all Spec.Deriv.plain) || !b.abstractOK) then go3 n s2 acc
         else
           let nm := if ctx.abstract then none else some (Spec.pick ["x", "y1", "zz"] s2)
           go3 n (Spec.lcg s2) (Spec.declCase b (Spec.ofDerivs nm ds) ctx :: acc)
